@@ -110,6 +110,12 @@ func (p prop) RunCase(c *fw.Ctx, rng *fw.RNG, batch, i int) {
 			if k%3 == 0 {
 				typedmon.CheckWrongKind(c, gen, ts, t, tv)
 			}
+			if t.Kind == "map" {
+				for _, lvl := range []bool{false, true} {
+					typedmon.CheckRejectedKey(c, gen, ts, t, tv, lvl, rng)
+					typedmon.CheckRejectedKey(c, bind, ts, t, tv, lvl, rng)
+				}
+			}
 			rv, rerr := ts.ReprOf(t, tv)
 			if rerr != nil {
 				continue
